@@ -18,7 +18,7 @@ use std::cell::RefCell;
 use std::process::Command;
 
 pub fn handles(id: &str) -> bool {
-    matches!(id, "C04" | "C15" | "C16" | "C17" | "C18" | "C20")
+    matches!(id, "C04" | "C11" | "C15" | "C16" | "C17" | "C18" | "C20")
 }
 
 pub fn rule(id: &str) -> String {
@@ -138,6 +138,7 @@ macro_rules! try_outcome {
 pub fn run(cfg: &RunCfg, stats: &mut Stats, exhaustive: &mut bool, extra: &mut Value) -> Outcome {
     match cfg.id.as_str() {
         "C04" => run_c04(cfg, stats),
+        "C11" => run_c11_static(cfg, stats),
         "C15" => run_c15(cfg, stats),
         "C16" => run_c16(cfg, stats, exhaustive, extra),
         "C17" => run_c17(cfg, stats, exhaustive, extra),
@@ -165,6 +166,10 @@ pub fn replay(id: &str, v: &Value) -> Result<Option<Fail>, String> {
                 _ => Err("bad start".into()),
             }
         }
+        ("C11", "position") => match crate::drive::start_from_json(&v["start"])? {
+            gen::Start::Pos(p) => Ok(c11_position(&p, &mut st).err()),
+            _ => Err("bad start".into()),
+        },
         ("C17", "context") => {
             let start = crate::drive::start_from_json(&v["start"])?;
             match start {
@@ -308,6 +313,71 @@ fn run_c04(cfg: &RunCfg, stats: &mut Stats) -> Outcome {
     pref.samples = s.samples;
     for (k, v) in s.counters {
         pref.counters.insert(format!("constructed/{}", k), v);
+    }
+    stats.merge(pref);
+    out
+}
+
+
+// =====================================================================================
+// C11: static metamorphic check on constructed positions (immobilised / near-immobile / boxed
+// movers, rabbits on goal ranks, sides without rabbits) - the positions random games rarely reach
+// =====================================================================================
+
+pub fn c11_position(p: &gen::PosSpec, st: &mut Stats) -> Check {
+    use crate::props::{sym_action, sym_board, sym_winner, Sym};
+    let eng = engine_from_position(&p.board, p.gold_to_move, p.move_number).map_err(|e| Fail::new("harness:start", e))?;
+    st.eval();
+    let base = guard(|| (eng.valid_actions(), eng.valid_actions_no_rep(), winner_of(&eng.is_terminal()))).map_err(|e| Fail::new("C11:panic", e))?;
+    let ctx = format!("[{} | {} to move]", board_text(&p.board), if p.gold_to_move { "gold" } else { "silver" });
+    for s in [Sym::Mirror, Sym::Swap, Sym::Both] {
+        let ib = sym_board(s, &p.board);
+        let side = if s == Sym::Mirror { p.gold_to_move } else { !p.gold_to_move };
+        let img = engine_from_position(&ib, side, p.move_number).map_err(|e| Fail::new("harness:start", e))?;
+        let r = guard(|| (img.valid_actions(), img.valid_actions_no_rep(), winner_of(&img.is_terminal()))).map_err(|e| Fail::new("C11:image_panic", e))?;
+        let map = |l: &[arimaa_engine_step::Action]| -> std::collections::BTreeSet<m::MAction> { l.iter().map(|a| sym_action(s, to_maction(a))).collect() };
+        let set = |l: &[arimaa_engine_step::Action]| -> std::collections::BTreeSet<m::MAction> { l.iter().map(to_maction).collect() };
+        ensure!(map(&base.0) == set(&r.0), "C11:offered", "under {:?} the offered actions [{}] do not map onto the image's [{}] at {}", s, actions_text(&base.0), actions_text(&r.0), ctx);
+        ensure!(map(&base.1) == set(&r.1), "C11:offered_norep", "under {:?} the rule-only actions do not map onto the image's at {}", s, ctx);
+        ensure!(sym_winner(s, base.2) == r.2, "C11:result", "under {:?} result {:?} maps to {:?} but the image reports {:?} at {}", s, base.2, sym_winner(s, base.2), r.2, ctx);
+    }
+    if base.2.is_some() || base.0.is_empty() {
+        st.bump("static/position_with_result");
+    }
+    st.nontrivial(fp_combine(p.board.fingerprint(), p.gold_to_move as u64 + 100));
+    Ok(())
+}
+
+fn run_c11_static(cfg: &RunCfg, stats: &mut Stats) -> Outcome {
+    let cases = if cfg.thorough { 300_000 } else { 12_000 };
+    let strat = || {
+        prop_oneof![
+            3 => (gen::raw_pos(), 0u8..32, 0u8..8, 0u8..8, prop::collection::vec((any::<u8>(), any::<u8>(), any::<u8>()), 1..5))
+                .prop_map(|(raw, target, a, b, imm)| c04_build(&C04Raw { raw, target, goal_file_last: a, goal_file_mover: b, imm })),
+            2 => gen::near_immobile(),
+        ]
+    };
+    let seed = cfg.seed;
+    let mut s = Stats::default();
+    let out = sharded(
+        cfg,
+        20,
+        cases,
+        strat,
+        |p: &gen::PosSpec, st: &mut Stats| match c11_position(p, st) {
+            Err(f) if f.clause.starts_with("harness:") => Ok(()),
+            r => r,
+        },
+        |p, f, shard| json!({"property": "C11", "kind": "position", "clause": f.clause, "detail": f.detail, "start": crate::drive::start_json(&gen::Start::Pos(p.clone())), "seed": seed, "shard": shard}),
+        |p| json!({"static_position": board_text(&p.board), "gold_to_move": p.gold_to_move}),
+        &mut s,
+    );
+    let mut pref = Stats::default();
+    pref.evaluations = s.evaluations;
+    pref.nontrivial = s.nontrivial;
+    pref.samples = s.samples;
+    for (k, v) in s.counters {
+        pref.counters.insert(format!("static/{}", k), v);
     }
     stats.merge(pref);
     out
